@@ -84,6 +84,10 @@ func (r *Runner) RunHistory(histNo int, o HistOpts) error {
 			// concurrent insert requests that share an id
 			r.InsertRace(2 + r.R.Intn(3))
 		}
+		if o.GetAll && !o.InsertOnly && !r.Cfg.Quantised && b%6 == 2 {
+			// concurrent write requests of any kind on disjoint ids
+			r.WriteRace(2 + r.R.Intn(3))
+		}
 		observe(b)
 		// (trained quantisers: evict only every third batch, so that a cache loaded from storage lives across
 		// several writes before it is compared with a cold copy above)
